@@ -49,6 +49,27 @@ C02_Kinds(doc, xk) == \A h \in RootHolders(doc, xk) : h[2] = "schema"
 C02_Form(doc)      == \A x \in RefsIn(doc) : CanonicalRef(doc, x[2])
 C02(doc, xk)       == C02_Kinds(doc, xk) /\ C02_Form(doc)
 
+\* ---- L1: contracts of the phases (snapshots recorded after every phase / loop round through the verif hooks) ----------
+\* C01 is an inductive invariant of the pipeline: the operations mean the same after EVERY phase, not only at the end
+PhasesKeepMeaning(b0, phases) == \A i \in DOMAIN phases : C01_Paths(b0, After(b0, phases[i].doc))
+BrokenPhases(b0, phases)      == { i \in DOMAIN phases : ~C01_Paths(b0, After(b0, phases[i].doc)) }
+\* lemmas of C02: what each phase must have achieved
+NoSharedRefs(doc, xk) == \A h \in RootHolders(doc, xk) : h[2] = "schema"
+NoRemoteRefs(doc)     == \A x \in RefsIn(doc) : x[2][1] = "root"
+PhaseLemma(ph, xk) ==
+  CASE ph.ev \in {"phase.expand", "phase.normalize", "phase.dropShared"} -> NoSharedRefs(ph.doc, xk)
+    [] ph.ev \in {"phase.import", "phase.nameInline"} -> NoSharedRefs(ph.doc, xk) /\ NoRemoteRefs(ph.doc)
+    [] ph.ev \in {"phase.strip", "phase.removeUnused"} -> NoSharedRefs(ph.doc, xk) /\ C02_Form(ph.doc)
+    [] OTHER -> TRUE
+LemmasHold(phases, xk) == \A i \in DOMAIN phases : PhaseLemma(phases[i], xk)
+BrokenLemmas(phases, xk) == { i \in DOMAIN phases : ~PhaseLemma(phases[i], xk) }
+\* the phases come in the order of the pipeline and the last snapshot is the returned document
+PhaseOrder == <<"phase.expand", "phase.normalize", "phase.dropShared", "phase.import", "phase.nameInline", "phase.strip", "phase.removeUnused">>
+MainPhases(phases) == SelectSeq([i \in DOMAIN phases |-> phases[i].ev], LAMBDA e : e \in Range(PhaseOrder))
+PipelineShape(phases, doc, ok) ==
+  ok => /\ MainPhases(phases) = PhaseOrder
+        /\ phases[Len(phases)].doc = doc
+
 \* ---- C03 ------------------------------------------------------------------------------------
 \* the documented rule: object with properties, allOf composition, tuple
 Complex(n) ==
